@@ -246,6 +246,11 @@ def oracleErrors (c : CaseIn) (chunks : List Bytes) : Option String :=
     | .msg t body => if t = ch 'Q' then
         match cstr body with
         | some (33 :: spec, _) => Script.parseErrSpec spec
+        | some (q, _) =>
+          -- a single statement `cols/params/ops/E<errspec>` that returns a (decorated) error
+          match Script.splitBy (ch '/') q with
+          | [_, _, _, 69 :: spec] => Script.parseErrSpec spec
+          | _ => none
         | _ => none
       else none
     | _ => none
